@@ -1,4 +1,47 @@
-//! stream `tok` — not implemented yet
-pub fn handle(_args: &[&str]) -> Option<String> {
-    None
+//! stream `tok` (front end, C13/C14): the real `Tokenizer::parse`
+//!
+//! `tok lex <hex of UTF-8 text>`            -> `ok <n> <tok>;<tok>;…` (`-` for no token) | `panic`
+//! `tok layout <hex of UTF-8 text> <…>`     -> the same; the further arguments (expected items and
+//!                                             locations) are only read by the oracle
+//! token: `T:<line>:<column>:<hex of text>` | `S:<line>:<column>:<hex of char>`
+//! Input that is not valid UTF-8 is not a request (`bad-op`); a panic is caught by the caller.
+use crate::util::*;
+use asn1rs::model::parse::{Token, Tokenizer};
+
+fn render(tokens: &[Token]) -> String {
+    let mut out = format!("ok {} ", tokens.len());
+    if tokens.is_empty() {
+        out.push('-');
+    }
+    for (i, t) in tokens.iter().enumerate() {
+        if i > 0 {
+            out.push(';');
+        }
+        let l = t.location();
+        match t {
+            Token::Text(_, s) => {
+                out.push_str(&format!("T:{}:{}:{}", l.line(), l.column(), hex(s.as_bytes())))
+            }
+            Token::Separator(_, c) => {
+                let mut b = [0u8; 4];
+                out.push_str(&format!(
+                    "S:{}:{}:{}",
+                    l.line(),
+                    l.column(),
+                    hex(c.encode_utf8(&mut b).as_bytes())
+                ))
+            }
+        }
+    }
+    out
+}
+
+pub fn handle(args: &[&str]) -> Option<String> {
+    match args {
+        ["lex", h] | ["layout", h, _, _] => {
+            let text = String::from_utf8(unhex(h)?).ok()?;
+            Some(render(&Tokenizer::default().parse(&text)))
+        }
+        _ => None,
+    }
 }
